@@ -153,6 +153,17 @@ fn wait_for_thread(x: int) -> int {
     while !thread_ok { time.sleep(0.002); }
     1
 }
+let cfg = new { retries: 4, name: "x" };
+fn patch_cfg(n: int) { let v = cfg as { ? }; v.set("retries", n); }
+fn cfg_retries() -> int { cfg.retries }
+fn bump_cfg() -> int { cfg.retries += 1; cfg.retries }
+let parsed_total = 0;
+let parse_errs = 0;
+fn add_parsed(s: str) -> int {
+    try { parsed_total += s.parse_int(); } catch e { parse_errs += 1; }
+    parsed_total
+}
+fn parse_errors() -> int { parse_errs }
 fn tag_count(key: str) -> int {
     let o = new { ? };
     o.set(key, 1);
@@ -249,6 +260,10 @@ type c16Model struct {
 	aliased  bool // alias_views() has run: vb and va are one list
 	viewA    int  // elements pushed through va
 	spanIncl bool
+	cfgRetries  int64
+	cfgSet      bool
+	parsedTotal int64
+	parseErrs   int64
 	firstResult map[string]string // pure calls judged against their own first result
 	dlLen    int // length of the global list that double_dl() concatenates with itself
 	log     []int64
@@ -369,7 +384,44 @@ func c16GenOp(s *simrt.Sim, m *c16Model, pfault int, force int) c16Op {
 			// handled by the caller: print fault / cancel fault on an ordinary op
 		}
 	}
-	switch pick(51, "op") {
+	switch pick(57, "op") {
+	case 51:
+		n := []int64{0, 7, 10, 99}[pick(4, "arg")]
+		return c16Op{fn: "patch_cfg", args: []value.Value{vInt(n)}, desc: fmt.Sprintf("patch_cfg(%d)", n), check: wantNull, apply: func(m *c16Model) { m.cfgRetries, m.cfgSet = n, true }}
+	case 52:
+		want := int64(4)
+		if m.cfgSet {
+			want = m.cfgRetries
+		}
+		return c16Op{fn: "cfg_retries", desc: "cfg_retries()", check: wantInt(want)}
+	case 53:
+		cur := int64(4)
+		if m.cfgSet {
+			cur = m.cfgRetries
+		}
+		return c16Op{fn: "bump_cfg", desc: "bump_cfg()", check: wantInt(cur + 1), apply: func(m *c16Model) { m.cfgRetries, m.cfgSet = cur+1, true }}
+	case 54, 55:
+		arg := []string{"5", "x", "12", "", "-3", "1e"}[pick(6, "arg")]
+		add, bad := int64(0), false
+		switch arg {
+		case "5":
+			add = 5
+		case "12":
+			add = 12
+		case "-3":
+			add = -3
+		default:
+			bad = true
+		}
+		want := m.parsedTotal + add
+		return c16Op{fn: "add_parsed", args: []value.Value{vStr(arg)}, desc: fmt.Sprintf("add_parsed(%q)", arg), check: wantInt(want), apply: func(m *c16Model) {
+			m.parsedTotal = want
+			if bad {
+				m.parseErrs++
+			}
+		}}
+	case 56:
+		return c16Op{fn: "parse_errors", desc: "parse_errors()", check: wantInt(m.parseErrs)}
 	case 49:
 		key := []string{"kitchen", "hallway", "garage", "k"}[pick(4, "arg")]
 		return c16Op{pure: true, reusable: true, fn: "tag_count", args: []value.Value{vStr(key)}, desc: fmt.Sprintf("tag_count(%q)", key), check: wantInt(1)}
